@@ -43,6 +43,8 @@ type ClientState struct {
 	SentSeq     []uint64 // seq at which the last byte of request i was delivered to the proxy's socket
 	SentAt      []time.Duration
 	ReplyAt     []time.Duration
+	SentH       []int // driver history stamp (strictly increasing per send/recv action) when request i was completely sent
+	ReplyH      []int // ... when reply i was parsed by the client
 	done        bool
 }
 
@@ -103,6 +105,7 @@ type Driver struct {
 	lastPoll time.Time
 	Hold     map[int]bool // clients the profile's own run loop has not released yet
 	Round    int
+	hseq     int
 	wl       interface{}
 }
 
@@ -439,6 +442,7 @@ func (d *Driver) newClient(i int, cp *ClientPlan) *ClientState {
 	}
 	c.SentSeq = make([]uint64, len(cp.Reqs))
 	c.SentAt = make([]time.Duration, len(cp.Reqs))
+	c.SentH = make([]int, len(cp.Reqs))
 	return c
 }
 
@@ -460,6 +464,9 @@ func (d *Driver) allowed(c *ClientState) int {
 	switch c.Plan.Mode {
 	case "closed":
 		i := len(c.Replies)
+		if c.Plan.Window > 1 {
+			i += c.Plan.Window - 1
+		}
 		if i >= len(c.bounds) {
 			return len(c.stream)
 		}
@@ -479,6 +486,9 @@ func (d *Driver) sendable(c *ClientState) int {
 	if !c.Connected || c.SelfClosed || c.ProxyClosed || c.Sock.Closed() {
 		return 0
 	}
+	if c.Plan.SendAfterAccepts > 0 && d.K.Stats.Accepts < c.Plan.SendAfterAccepts {
+		return 0
+	}
 	lim := d.allowed(c)
 	if c.Plan.CloseAfterSent >= 0 && lim > c.Plan.CloseAfterSent {
 		lim = c.Plan.CloseAfterSent
@@ -494,8 +504,10 @@ func (d *Driver) send(c *ClientState, n int) {
 	d.K.Deliver(c.Sock, b)
 	old := c.sent
 	c.sent += n
+	d.hseq++
 	for i, e := range c.bounds {
 		if old < e && c.sent >= e {
+			c.SentH[i] = d.hseq
 			c.SentSeq[i] = d.K.Seq()
 			c.SentAt[i] = time.Since(d.Start)
 		}
@@ -532,6 +544,7 @@ func (d *Driver) recvable(c *ClientState) int {
 func (d *Driver) recv(c *ClientState, n int) {
 	b := d.K.TakeOut(c.Sock, n)
 	c.recv = append(c.recv, b...)
+	d.hseq++
 	for !c.Malformed {
 		r, m, st := ParseReply(c.recv)
 		if st == RIncomplete {
@@ -547,6 +560,7 @@ func (d *Driver) recv(c *ClientState, n int) {
 		c.ReplyStep = append(c.ReplyStep, d.PollNo)
 		c.ReplyRound = append(c.ReplyRound, d.Round)
 		c.ReplyAt = append(c.ReplyAt, time.Since(d.Start))
+		c.ReplyH = append(c.ReplyH, d.hseq)
 		c.recv = c.recv[m:]
 		d.trace("client %d got reply #%d %q", c.Idx, len(c.Replies)-1, clip(r.Raw, 60))
 	}
@@ -698,6 +712,19 @@ func (d *Driver) applyEvent(e *Event, target *BConn) {
 		}
 		if target != nil && !target.Dead {
 			d.killConn(target, e.Rst)
+		}
+	case "rst-at-write":
+		if target == nil {
+			for _, bc := range d.C.Conns() {
+				if !bc.Dead && bc.Node.Addr == e.Node {
+					target = bc
+				}
+			}
+		}
+		if target != nil && !target.Dead && !target.Sock.Closed() {
+			d.K.ArmRstAtWrite(target.Sock)
+			d.count("rst_at_write_armed")
+			d.trace("backend conn#%d to %s: peer reset will meet the next write", target.ID, target.Node.Addr)
 		}
 	case "node-down":
 		n := d.C.Nodes[e.Node]
@@ -872,6 +899,9 @@ func (d *Driver) exec(a action) {
 			n = d.amount(n)
 		}
 		d.send(a.c, n)
+		if a.c.Plan.PollAfterSend {
+			d.Poll()
+		}
 	case "recv":
 		n := d.recvable(a.c)
 		if a.c.Plan.Slow {
